@@ -9,7 +9,7 @@ from hypothesis import strategies as st
 from scipy import signal
 
 from .. import gen
-from ..core import Violation, Refusal, require, sut, close, same_bits, snap, snap_diff
+from ..core import Violation, Refusal, require, sut, close, same_bits, snap, snap_diff, foreign_check
 
 ID = "C18"
 RULE = ("Cases: one three-component recording (60-1200 samples, drawn recipes, drawn time step and orientation in "
@@ -57,7 +57,18 @@ def strategy(draw):
             ops.append(dict(op=o, frac=draw(gen.floats(0.1, 0.6)), edit=draw(st.sampled_from(["window", "source", "window"])), which=draw(st.integers(0, 5))))
         else:
             ops.append(dict(op="saveload"))
-    return dict(rec=rec, ops=ops, meta=draw(st.sampled_from([None, {"site": "A-12", "operator": ["x", "y"], "gain": 2.5}])))
+    # metadata: none, plain ASCII, or text as it occurs in practice (accented / non-Latin station and file names,
+    # names that are not valid UTF-8 on disk and reach Python as lone surrogates through os.fsdecode)
+    words = st.one_of(st.sampled_from(["Z\u00fcrich-H\u00f6ngg", "S\u00e3o Paulo", "\u6771\u4eac", "sta\u021bia_7", "fichier_\udce9t\udce9.mseed",
+                                        "\U0001f30b crater rim", "na\u00efve", "plain"]),
+                      st.text(alphabet=st.characters(min_codepoint=0x20, max_codepoint=0x30ff, blacklist_categories=["Cs"]), min_size=1, max_size=10))
+    meta = draw(st.one_of(st.none(), st.just({"site": "A-12", "operator": ["x", "y"], "gain": 2.5}),
+                          st.fixed_dictionaries({"site": words, "file name(s)": st.lists(words, min_size=1, max_size=3), "gain": gen.floats(0.1, 10)},
+                                                optional={"operator": words})))
+    text = meta is not None and any(ord(ch) > 127 for ch in str(meta))
+    return dict(rec=rec, ops=ops, meta=meta,
+                # the same history evaluated in an interpreter whose default text encoding is not UTF-8 (legacy locale / Windows)
+                foreign=bool(text and any(o["op"] == "saveload" for o in ops) and draw(gen.chance(3))))
 
 
 def _content(x):
@@ -299,4 +310,9 @@ def check_case(case):
             require(_ang_eq(rec.degrees_from_north, orient), f"{step}: orientation is {rec.degrees_from_north}, expected {orient}")
     finally:
         shutil.rmtree(tmp, ignore_errors=True)
+    if case.get("meta") is not None and any(ord(ch) > 127 for ch in str(case["meta"])):
+        labels.append("non-ascii-metadata")
+    if case.get("foreign"):
+        foreign_check(ID, dict(case, foreign=False))
+        labels.append("also-in-ascii-locale-interpreter")
     return dict(labels=sorted(set(labels)), nontrivial=nontrivial)
